@@ -15,6 +15,17 @@ def decode(p):
                     "source": bytes.fromhex(f[1]).decode("utf8", "replace")}
         except Exception:
             return p
+    if f[0] == "OUT":
+        try:
+            return {"kind": "OUT (output step of one expression against an independent evaluation)",
+                    "expression": bytes.fromhex(f[1]).decode("utf8", "replace") if f[1] != "-" else ""}
+        except Exception:
+            return p
+    if f[0] == "CTX":
+        try:
+            return {"kind": "CTX (literal inside a function / loop body)", "program": bytes.fromhex(f[1]).decode("utf8", "replace")}
+        except Exception:
+            return p
     if f[0] in ("REC", "PAR"):
         try:
             return {"kind": f[0] + " (one literal node evaluated re-entrantly / by several goroutines)", "k": int(f[1]),
